@@ -85,6 +85,7 @@ def _child(check_mod, program, wfd, opts):
 
         faulthandler.dump_traceback_later(opts.get("wall", 60) + 5, exit=True)
         gc.disable()
+        gc.freeze()  # everything imported by the parent is permanent: seeded gc.collect() stays cheap
         res = check_mod.execute(program, opts)
         data = json.dumps(res, default=_jsonable).encode()
     except BaseException:
